@@ -37,6 +37,7 @@ type trConf struct {
 	// each `return …` statement -> the Lean term it stands for
 	returns map[string]string
 	prelude string // Lean declarations the definition needs (result type)
+	typeParam string // Lean type a Go type parameter is instantiated with (generic functions)
 }
 
 var trConfs = []trConf{
@@ -44,6 +45,11 @@ var trConfs = []trConf{
 		params: []trParam{{"d", "Int"}}},
 	{key: "x/valset/keeper.calculateJailSentenceResetThreshold", lean: "calculateJailSentenceResetThreshold", ret: "Int",
 		params: []trParam{{"d", "Int"}}},
+	{key: "util/palomath.Median", lean: "median", ret: "UInt64", typeParam: "UInt64",
+		// `w` is the sorted copy of `s` (make / copy / slices.Sort are library calls): it enters as a parameter and the
+		// theorem instantiates it with the sorted list
+		params: []trParam{{"s", "List UInt64"}, {"w", "List UInt64"}},
+		skip:   []string{"w := make([]E, len(s))", "copy(w, s)", "slices.Sort(w)"}},
 	{key: "x/evm/keeper.isEnoughToReachConsensus", lean: "isEnoughToReachConsensus", ret: "Bool",
 		params: []trParam{{"powers", "List UInt64"}},
 		atoms:  map[string]string{"val.Powers": "powers"}},
@@ -111,6 +117,9 @@ func (c *trCtx) fail(format string, a ...interface{}) string {
 }
 
 func (c *trCtx) leanType(t types.Type) string {
+	if _, ok := t.(*types.TypeParam); ok && c.conf.typeParam != "" {
+		return c.conf.typeParam
+	}
 	s := t.String()
 	switch {
 	case s == "uint64":
@@ -150,6 +159,10 @@ func (c *trCtx) constVal(e ast.Expr) (string, bool) {
 	switch tv.Value.Kind() {
 	case constant.Int:
 		return tv.Value.ExactString(), true
+	case constant.Float:
+		if iv := constant.ToInt(tv.Value); iv.Kind() == constant.Int {
+			return iv.ExactString(), true
+		}
 	case constant.Bool:
 		return strings.ToLower(tv.Value.String()), true
 	}
